@@ -33,6 +33,7 @@ func c17Values() map[string][]byte {
 	entry := "http://example.com/r#0\t2000-01-01T00:00:00Z\t2000-01-01T00:00:00Z\nHTTP/1.1 200 OK\r\nCache-Control: max-age=100\r\nContent-Length: 26\r\nX-Secret: TOPSECRETVALUE\r\n\r\nSECRET-BODY-PLAINTEXT-0001"
 	v4k := bytes.Repeat([]byte("PLAINTEXT-BLOCK-0123456789abcdef"), 128)
 	return map[string][]byte{
+		"0B":    {},
 		"1B":    []byte("S"),
 		"40B":   []byte("forty-byte-plaintext-value-0123456789ABC"),
 		"index": []byte(`[{"id":"http://example.com/r#0","vary":"","vary_resolved":null,"received_at":"2000-01-01T00:00:00Z"}]`),
@@ -87,7 +88,7 @@ func c17Dir() string {
 }
 
 func runC17Tamper(x *mc.X) {
-	vname := mc.Pick(x, "value", []string{"1B", "40B", "index", "entry", "4KiB"})
+	vname := mc.Pick(x, "value", []string{"0B", "1B", "40B", "index", "entry", "4KiB"})
 	keyLen := mc.Pick(x, "key-bytes", []int{16, 24, 32})
 	family := mc.Pick(x, "family", []string{"substitute", "truncate", "extend", "xor-two-positions", "wrong-key", "same-value-twice"})
 	val := c17Values()[vname]
